@@ -172,7 +172,7 @@ func cmdCheck(args []string) int {
 			if only != "" && !strings.Contains(k, only) {
 				continue
 			}
-			fns := P.FindFunc(k)
+			fns := P.FindFunc(baseKey(k))
 			if len(fns) == 0 {
 				results = append(results, &FuncResult{Key: ShortKey(k), Err: fmt.Errorf("%s: function under contract not found in the current tree", ShortKey(k))})
 				continue
